@@ -57,14 +57,26 @@ def run(chk: Check):
     thorough = chk.tier == "thorough"
     rng = random.Random(chk.seed)
     chk.rule = ("design: termination (liveness) and a linear step bound for every loop over untrusted structure - the three allocation-table "
-                "walks, the partition scan, the file-table scan, the keygroup chain, cue line consumption - over all small inputs. Fault "
+                "walks, the partition scan, the file-table scan, the keygroup chain, cue line consumption, the trimming of an export name - over all small inputs. Fault "
                 "enumeration: TLC enumerates every single fault (site x value: every used SAT/FAT word and neighbours set to each special "
                 "value, each in-range link, itself, extremes; directory pointers, counts, sizes, type bytes, header counts) and simulated "
-                "pairs/triples on generated AKAI and Roland images, plus mutated cue sheets, random byte strings and random multi-byte "
+                "pairs/triples on generated AKAI and Roland images, plus mutated cue sheets, cue sheets with one 60 kB line of each character class in each position, random cue-like text, random byte strings and random multi-byte "
                 "corruptions; each runs ls at every level and export in a forked child under rlimits; non-trivial = distinct fault set")
     for kind in ("partitions", "table", "keygroups", "cue"):
-        chk.run_tlc("Scans", tlc.cfg_text(spec="Spec", constants=dict(TableScanRealigns=True, Kind=kind, MaxSize=5 if thorough else 4, S=2, HeadLen=5),
+        chk.run_tlc("Scans", tlc.cfg_text(spec="Spec", constants=dict(TrimBacktracks=False, TableScanRealigns=True, Kind=kind, MaxSize=5 if thorough else 4, S=2, HeadLen=5),
                                           invariants=["StepBound", "Aligned"], properties=["Terminates"]), label=f"design: {kind} scan terminates, linear steps")
+    # name trimming (D19): the repaired trim is linear and gives the same name as the regular expression it replaced;
+    # the regular expression run by a backtracking matcher must be refuted on the step bound
+    trim = dict(TableScanRealigns=True, Kind="trim", MaxSize=6 if thorough else 5, S=2, HeadLen=5)
+    chk.run_tlc("Scans", tlc.cfg_text(spec="Spec", constants=dict(trim, TrimBacktracks=False), invariants=["StepBound", "TrimResult"], properties=["Terminates"]),
+                label="design: trimming the ending of an export name is linear")
+    chk.run_tlc("Scans", tlc.cfg_text(spec="Spec", constants=dict(trim, TrimBacktracks=True), invariants=["TrimResult"], properties=["Terminates"]),
+                label="design: the backtracking matcher computes the same ending")
+    r = chk.run_tlc("Scans", tlc.cfg_text(spec="Spec", constants=dict(trim, TrimBacktracks=True), invariants=["StepBound"]), expect_ok=False,
+                    label="sensitivity: the backtracking matcher must be refuted on the step bound")
+    chk.extra["spec_mutants_killed"] = {"TrimBacktracks": not r.ok}
+    if r.ok:
+        raise tlc.TlcError("sensitivity self-test failed: Scans.tla accepts the backtracking trim")
     for kind, n, alpha, lo, hi in [("path", 3, {0}, 0, 0), ("akai", 4, akai_alphabet(4), 0, 4), ("roland", 13, roland_alphabet(13, 5), 2, 5)]:
         c = dict(N=n, Kind=kind, Alphabet=alpha, Lo=lo, Hi=hi, PathGuardIncrements=True, RolandWalkBounded=True)
         chk.run_tlc("AllocWalk", tlc.cfg_text(spec="Spec", constants=c, properties=["Terminates"]), label=f"design: {kind} table walk terminates")
@@ -100,6 +112,34 @@ def run(chk: Check):
             t[i] = m
             jobs.append({"label": "cue", "faults": [[i, muts.index(m)]], "names": [(f"line{i}", m[:30])], "data": "".join(t).encode("ascii"),
                          "paths": ["", "One", "Two"], "suffix": ".cue", "extra": {"image.bin": cue.bin_bytes(binlen, 1)}})
+    # cue sheets with one very long line: a long run of one character class inside a title (alone, and twice so that the
+    # duplicate-name and pairing code sees it), a file name, a track line, a remark; every regular expression and every
+    # name routine must stay linear in the line length
+    N = 60000
+    runs = {"blanks": " " * N, "hyphens": "-" * N, "blank-hyphen": " -" * (N // 2), "dots": "." * N, "dot-blank": " ." * (N // 2), "quotes": "'" * N,
+            "colons": ":" * N, "stars": "*" * N, "L": " L" * (N // 2), "counted": " (2)" * (N // 4), "digits": "1" * N, "words": "ab " * (N // 3)}
+    for rn, run_ in sorted(runs.items()):
+        t1 = f'    TITLE "A{run_}B"\n'
+        shapes = {"title": ['FILE "image.bin" BINARY\n', "  TRACK 01 AUDIO\n", t1, "    INDEX 01 00:00:00\n"],
+                  "title-twice": ['FILE "image.bin" BINARY\n', "  TRACK 01 AUDIO\n", t1, "    INDEX 01 00:00:00\n", "  TRACK 02 AUDIO\n", t1, "    INDEX 01 00:00:02\n"],
+                  "title-pair": ['FILE "image.bin" BINARY\n', "  TRACK 01 AUDIO\n", f'    TITLE "A{run_}B L"\n', "    INDEX 01 00:00:00\n",
+                                 "  TRACK 02 AUDIO\n", f'    TITLE "A{run_}B R"\n', "    INDEX 01 00:00:02\n"],
+                  "file": [f'FILE "{run_}" BINARY\n', "  TRACK 01 AUDIO\n", "    INDEX 01 00:00:00\n"],
+                  "track": ['FILE "image.bin" BINARY\n', f"  TRACK 01 {run_}\n", "    INDEX 01 00:00:00\n"],
+                  "index": ['FILE "image.bin" BINARY\n', "  TRACK 01 AUDIO\n", f"    INDEX 01 {run_}:00:00\n"],
+                  "remark": ['FILE "image.bin" BINARY\n', f"REM {run_}\n", "  TRACK 01 AUDIO\n", "    INDEX 01 00:00:00\n"]}
+        for sn, lines_ in sorted(shapes.items()):
+            if not thorough and sn in ("track", "index", "remark") and rn not in ("blanks", "digits", "words"):
+                continue
+            jobs.append({"label": "cue-long-line", "faults": [[sn, rn]], "names": [(sn, rn)], "data": "".join(lines_).encode("ascii"),
+                         "paths": ["", "A"], "suffix": ".cue", "extra": {"image.bin": bytes(2352 * 8)}})
+    # random text: lines drawn from cue keywords, quotes, numbers and blanks (random byte strings never pass the text probe)
+    words = ["FILE", "TRACK", "INDEX", "TITLE", "BINARY", "AUDIO", "MODE1/2352", '"', '"image.bin"', "01", "02", "00:00:00", "00:02:00", "REM", " ", "  ", "\t",
+             "A", "B L", "B R", "-", ".", "(2)", "99", "file", "track", "index"]
+    for i in range(400 if thorough else 80):
+        text = "".join(" ".join(rng.choice(words) for _ in range(rng.randint(0, 6))) + rng.choice(["\n", "\r\n", "\n\n"]) for _ in range(rng.randint(1, 12)))
+        jobs.append({"label": "random-text", "faults": [[i, len(text)]], "names": [], "data": text.encode("ascii"), "paths": ["", "A", "Untitled Track 1"],
+                     "suffix": ".cue", "extra": {"image.bin": bytes(2352 * 8)}})
     # random byte strings and random corruptions
     n_rand = 300 if thorough else 60
     for i in range(n_rand):
